@@ -137,9 +137,12 @@ CHECKS = {
                 "returned value; the bye penalty's margin over twice the "
                 "largest distance, the upper-bound expression, the kernel "
                 "wiring and the instance's own bound are polynomial "
-                "identities.",
+                "identities."
+                " D8.3: every plan length lies within [0, upper_bound()] (lemma from the transition structure and the penalty margin); a declared bound above n*days*penalty is accepted, one below the length of the plan without games is refuted by evaluating the bound polynomial.",
         "design_ref": "DESIGN.md section 4, C08",
-        "note": "Does NOT decide validity of the upper bound, the strict "
+        "note": "The bounds clause is decided through lemma L8 (D8.3), "
+                "whose premises are the obligations D8.1/D8.2. Does NOT "
+                "decide the strict "
                 "increase clause beyond the penalty margin, or the "
                 "published optimum table (search over plans). The "
                 "`already there` shortcut is accepted with or without the "
